@@ -4,7 +4,7 @@
    Model/Attr.v) ends in tokens or a compile error, never a panic; every documented incompatible
    combination is rejected.  That accepted expansions compile is rustc's judgement: it is decided by
    compiling the generated corpus (partial). *)
-From TsRs Require Import Base.Str Base.Outcome Gen.Tables Model.Attr Model.Validity Proofs.Validity_proofs.
+From TsRs Require Import Base.Str Base.Outcome Gen.Tables Model.Attr Model.Validity Proofs.Validity_proofs Proofs.Validity_table_proofs.
 From Coq Require Import List.
 Import ListNotations.
 
@@ -53,7 +53,20 @@ Theorem C16_tagged_checked_before_use :
   forall r, enum_validity r = Ok tt -> tagged_ok r = true.
 Proof. exact enum_validity_tagged. Qed.
 
+(* the four assert_validity functions of the model ARE the decision rows the translator reads from
+   macros/src/attr/{struct,enum,variant,field}.rs on every run (conditions, messages and their order) *)
+Theorem C16_validity_is_the_source_table :
+  (forall r sh, struct_validity r sh = run_rows false (not_named sh) r validity_rows_struct) /\
+  (forall r, enum_validity r = run_rows false false r validity_rows_enum) /\
+  (forall r sh, variant_validity r sh = run_rows false (not_named sh) r validity_rows_variant) /\
+  (forall compat r named, field_validity compat r named = run_rows compat (negb named) r validity_rows_field).
+Proof.
+  split; [exact struct_validity_is_table|]. split; [exact enum_validity_is_table|].
+  split; [exact variant_validity_is_table | exact field_validity_is_table].
+Qed.
+
 Print Assumptions C16_no_panic.
+Print Assumptions C16_validity_is_the_source_table.
 Print Assumptions C16_attributes_never_panic.
 Print Assumptions C16_struct_conflicts_rejected.
 Print Assumptions C16_enum_conflicts_rejected.
